@@ -1,7 +1,31 @@
 import Gsu.Model.Btree
 import Gsu.Model.BtreeLeaf
+import Gsu.Model.BtreeTree
+import Gsu.Model.BtreeCodec
+import Gsu.Model.BtreeMerge
 import Gsu.Gen.Btree
 open Gsu.Proto Gsu.Btree
+
+/-- driver state: the content (map level model), the abstract tree, the split in force -/
+structure St where
+  m : List KV := []
+  t : BTree := ⟨0, ({ pre := 0, es := [] } : Leaf)⟩
+  split : Nat := 100
+
+def showLeaf (l : Leaf) : String :=
+  "L" ++ toString l.pre ++ ":" ++ toString l.es.length ++ ":" ++ toString l.size
+
+/-- a separator: short ones in hex, long ones as length and checksum -/
+def showSep (s : Key) : String :=
+  if s.length ≤ 12 then showBytes s
+  else "s" ++ toString s.length ++ ":" ++ toString (s.foldl (fun h b => hstep h b.toNat) 7)
+
+/-- the complete shape of a tree: every leaf (prefix length : key count : byte size) and every
+separator, in order -/
+def showBT : (h : Nat) → BT h → String
+  | 0, l => showLeaf l
+  | h + 1, t =>
+    "[ " ++ t.1.foldr (fun p acc => showBT h p.1 ++ " " ++ showSep p.2 ++ " " ++ acc) (showBT h t.2) ++ " ]"
 
 def parseKVs : List String → Option (List KV)
   | [] => some []
@@ -20,12 +44,8 @@ def showIter (l : List KV) : String :=
   lookup k                offset or 0
   iter                    n / forward hash / backward hash
 -/
-def step (m : List KV) (l : List String) : List KV × String :=
+def stepM (m : List KV) (l : List String) : List KV × String :=
   match l with
-  | "build" :: n :: toks =>
-    match parseNat n, parseKVs toks with
-    | some n, some kvs => let t := build n kvs; (t.toList, showIter t.toList)
-    | _, _ => (m, "bad-op")
   | "merge" :: toks =>
     match parseKVs toks with
     | some b =>
@@ -46,4 +66,45 @@ def step (m : List KV) (l : List String) : List KV × String :=
   | ["iter"] => (m, showIter m)
   | _ => (m, "bad-op")
 
-def main : IO Unit := runS ([] : List KV) step
+/-- additional ops on the abstract tree:
+  build <split> k off …   also bulk-builds the abstract tree (`bulkBuild`)
+  shape                   the shape of the abstract tree (compared with a walk of the real nodes)
+  tlookup k               `Lookup` by descent through the abstract tree
+  leafcodec x<bytes>      a stored leaf node: prefix length, key count, checksum of the decoded
+                          entries, `size()`, model size, and whether `encodeLeaf (decodeLeaf bytes) = bytes`
+-/
+def step (s : St) (l : List String) : St × String :=
+  match l with
+  | "build" :: n :: toks =>
+    match parseNat n, parseKVs toks with
+    | some n, some kvs =>
+      let t := bulkBuild n kvs
+      ({ m := t.toList, t := t, split := n }, showIter t.toList)
+    | _, _ => (s, "bad-op")
+  | "merge" :: toks =>
+    -- the batch on the content (map level) and on the abstract tree
+    match parseKVs toks with
+    | some b =>
+      let b' := b.map fun (k, raw) => let (op, o) := decode raw; (k, op, o)
+      match applyBatch s.m b', s.t.mergeBatch s.split b' with
+      | some m', some t' => ({ s with m := m', t := t' }, showIter m')
+      | none, none => (s, "!assert")
+      | some _, none => (s, "!tree-model-panics")
+      | none, some _ => (s, "!tree-model-accepts")
+    | none => (s, "bad-op")
+  | ["shape"] => (s, toString s.t.h ++ " " ++ showBT s.t.h s.t.root)
+  | ["leafcodec", x] =>
+    -- a real leaf node: decode it, and encode the decoded leaf again
+    match parseBytes x with
+    | some bs =>
+      let l := decodeLeaf bs
+      (s, toString l.pre ++ " " ++ toString l.es.length ++ " " ++ toString (hashList l.es) ++ " " ++
+        toString (leafNodeSize bs) ++ " " ++ toString l.size ++ " " ++ showBool (encodeLeaf l == bs))
+    | none => (s, "bad-op")
+  | ["tlookup", k] =>
+    match parseBytes k with
+    | some k => (s, toString ((s.t.lookup k).getD 0))
+    | none => (s, "bad-op")
+  | _ => let (m', o) := stepM s.m l; ({ s with m := m' }, o)
+
+def main : IO Unit := runS ({} : St) step
